@@ -4378,7 +4378,7 @@ class FlowIR(object):
             if 'hasAdditionalData' not in interface['inputSpec']:
                 interface['inputSpec']['hasAdditionalData'] = False
 
-            if 'additionalData' not in interface:
+            if 'additionalInputData' not in interface:
                 interface['additionalInputData'] = None
             if 'inputs' not in interface:
                 interface['inputs'] = None
